@@ -86,7 +86,7 @@ PROPS = {
         "functions": BITS_FNS + ["SplitKmer::build", "SplitKmer::update_rc", "SplitKmer::roll_fwd", "SplitKmer::new",
                                  "SplitKmer::get_curr_kmer", "SplitKmer::get_next_kmer", "SplitKmer::get_middle_pos",
                                  "NtHashIterator::new", "NtHashIterator::roll_fwd", "NtHashIterator::curr_hash"],
-        "kani": [("bitops", None), ("nthash", None)],
+        "kani": [("bitops", None), ("nthash", None), ("rollstep", None)],
         "bounded": [],
     },
 }
@@ -94,6 +94,7 @@ PROPS = {
 # where each Kani harness group is attached in the scratch copy of /repo (pure append of a `mod` line)
 KANI_GROUPS = {
     "tables": {"attach": "src/ska_dict/bit_encoding.rs", "file": "tables_harness.rs", "complete": True},
+    "rollstep": {"attach": "src/ska_dict/split_kmer.rs", "file": "rollstep_harness.rs", "complete": True},
     "bitops": {"attach": "src/ska_dict/bit_encoding.rs", "file": "bitops_harness.rs", "complete": True},
     "nthash": {"attach": "src/ska_dict/nthash.rs", "file": "nthash_harness.rs", "complete": True},
     "palin": {"fragment_unit": "palinfrag", "file": "palin_harness.rs", "complete": True},
